@@ -32,7 +32,7 @@ LEAN_MODULES = {
     "C03": ["TFV.Properties.EA", "TFV.Properties.Src.Engine", "TFV.Properties.Src.Skeleton", "TFV.Properties.Src.GetAim"],
     "C04": ["TFV.Properties.Rng"],
     "C05": ["TFV.Properties.EA", "TFV.Properties.Src.Engine"],
-    "C06": ["TFV.Properties.BinOps", "TFV.Properties.Runs", "TFV.Properties.Src.BinKernels", "TFV.Properties.Src.BinKernels2", "TFV.Properties.Src.GATrial"],
+    "C06": ["TFV.Properties.BinOps", "TFV.Properties.Runs", "TFV.Properties.Src.BinKernels", "TFV.Properties.Src.BinKernels2", "TFV.Properties.Src.GATrial", "TFV.Properties.Src.ShagaTrial"],
     "C07": ["TFV.Properties.DE", "TFV.Properties.Runs", "TFV.Properties.Src.BoundsControl", "TFV.Properties.Src.Binomial", "TFV.Properties.Src.Donors", "TFV.Properties.Src.DETrial"],
     "C08": ["TFV.Properties.Tree", "TFV.Properties.TreeCR", "TFV.Properties.Runs", "TFV.Properties.Src.Levels", "TFV.Properties.Src.Shrink", "TFV.Properties.Src.StandardX", "TFV.Properties.Src.OnePointGP", "TFV.Properties.Src.GrowMut", "TFV.Properties.Src.PointMut", "TFV.Properties.Src.Swap", "TFV.Properties.Src.Grow", "TFV.Properties.Src.GPTrial"],
     "C09": ["TFV.Properties.Tree", "TFV.Properties.TreeCR", "TFV.Properties.Src.TreeIdx", "TFV.Properties.Src.CommonRegion", "TFV.Properties.Src.TreeMethods",
@@ -41,7 +41,7 @@ LEAN_MODULES = {
     "C11": ["TFV.Properties.Select", "TFV.Properties.Src.Bsearch", "TFV.Properties.Src.Tournament", "TFV.Properties.Src.Sampling"],
     "C12": ["TFV.Properties.Net"],
     "C13": ["TFV.Properties.Net", "TFV.Properties.Gray"],
-    "C14": ["TFV.Properties.SelfConf"],
+    "C14": ["TFV.Properties.SelfConf", "TFV.Properties.Src.SelfCGAAdapt"],
     "C15": ["TFV.Properties.Adapt"],
     "C16": ["TFV.Properties.Split", "TFV.Properties.Src.GetNJobs", "TFV.Properties.Src.SplitPop"],
     "C17": ["TFV.Properties.EA", "TFV.Properties.Heap", "TFV.Properties.Src.UpdateData"],
@@ -58,7 +58,7 @@ SRC_KERNELS = {
     "C03": ["TheFittest_replace", "TheFittest_update", "termination_check", "get_remains_calls", "EA_fit", "EA_get_fitness", "EA_get_aim"],
     "C05": ["TheFittest_replace", "TheFittest_update", "termination_check", "get_remains_calls", "EA_get_fitness"],
     "C06": ["flip_mutation", "binomialGA", "one_point_crossover", "two_point_crossover", "uniform_crossover",
-            "uniform_proportional_crossover", "uniform_rank_crossover", "empty_crossover", "GA_get_new_individ_g",
+            "uniform_proportional_crossover", "uniform_rank_crossover", "empty_crossover", "GA_get_new_individ_g", "SHAGA_get_new_individ_g",
             "random_sample", "check_for_value", "sattolo_shuffle", "random_weighted_sample", "binary_search_interval"],
     "C07": ["bounds_control", "binomial", "best_1", "rand_1", "rand_to_best1", "current_to_best_1", "best_2", "rand_2",
             "current_to_pbest_1_archive", "DE_get_new_individ_g", "SHADE_get_new_individ_g", "random_sample", "check_for_value", "sattolo_shuffle", "random_weighted_sample", "binary_search_interval"],
@@ -70,6 +70,7 @@ SRC_KERNELS = {
             "Tree_subtree_id", "Tree_subtree", "Tree_concat", "get_levels_tree_from_i", "Tree_get_levels", "Tree_get_max_level",
             "standard_crossover", "Tree_get_common_region", "one_point_crossoverGP"],
     "C11": ["binary_search_interval", "check_for_value", "argsort_k", "tournament_selection", "proportional_selection", "rank_selection", "sattolo_shuffle", "random_sample", "random_weighted_sample"],
+    "C14": ["SelfCGA_adapt"],
     "C16": ["get_n_jobs", "EA_split_population"],
     "C17": ["EA_update_data"],
     "C19": ["recall_counts", "precision_counts", "f1_counts"],
